@@ -1193,11 +1193,10 @@ Lemma handler_decision_table_lemma decode accepted sb r :
      parse_proto_msg (eff_ctype r) = Some t -> existsb (mtype_eqb t) accepted = false ->
      serve decode accepted sb r = HOut 415 None None) /\
   (forall d t, enc_ok r = true -> decode (h_body r) = Some d -> str_eqb (h_method r) post = true ->
-     parse_proto_msg (eff_ctype r) = Some t -> existsb (mtype_eqb t) accepted = true -> sb_nil sb = false ->
-     serve decode accepted sb r =
-     HOut (store_status sb) (Some (sb_samples sb, sb_hist sb, sb_exem sb)) (Some (t, d))).
+     parse_proto_msg (eff_ctype r) = Some t -> existsb (mtype_eqb t) accepted = true ->
+     serve decode accepted sb r = HOut (store_status sb) (Some (store_written sb)) (Some (t, d))).
 Proof.
-  unfold enc_ok, eff_ctype, store_status, serve, serve_inner.
+  unfold enc_ok, eff_ctype, store_status, store_written, serve, serve_inner.
   repeat split.
   - intros E. apply orb_false_iff in E. destruct E as [E1 E2]. rewrite E1, E2. reflexivity.
   - intros E D. apply orb_true_iff in E. rewrite D.
@@ -1208,8 +1207,9 @@ Proof.
     destruct E as [E|E]; rewrite E; simpl; [reflexivity|rewrite andb_false_r; reflexivity].
   - intros d t E D M P A. apply orb_true_iff in E. rewrite D, M, P, A.
     destruct E as [E|E]; rewrite E; simpl; [reflexivity|rewrite andb_false_r; reflexivity].
-  - intros d t E D M P A N. apply orb_true_iff in E. rewrite D, M, P, A, N.
-    destruct E as [E|E]; rewrite E; simpl; try rewrite andb_false_r; destruct (sb_err sb); reflexivity.
+  - intros d t E D M P A. apply orb_true_iff in E. rewrite D, M, P, A.
+    destruct E as [E|E]; rewrite E; simpl; try rewrite andb_false_r;
+      destruct (sb_nil sb); simpl; destruct (sb_err sb); reflexivity.
 Qed.
 
 Lemma parse_default : parse_proto_msg app_proto = Some V1.
@@ -1219,11 +1219,10 @@ Lemma mtype_eqb_refl t : mtype_eqb t t = true.
 Proof. destruct t; reflexivity. Qed.
 
 Lemma handler_satisfies_spec_lemma decode accepted sb r ast :
-  sb_nil sb = false ->
   match ast with Some a => wf_ast a /\ render a = h_ctype r | None => True end ->
   handler_spec_ok decode accepted sb r ast (serve decode accepted sb r) = true.
 Proof.
-  intros N Hast.
+  intros Hast.
   (* what the specification knows about the Content-Type agrees with the parser *)
   assert (Hct : forall t', (if is_empty (h_ctype r) then Some (Some V1) else option_map ct_spec ast) = Some t' ->
                 parse_proto_msg (eff_ctype r) = t').
@@ -1249,8 +1248,8 @@ Proof.
   2:{ rewrite (T5 d t eq_refl eq_refl eq_refl eq_refl A). simpl.
       destruct (if is_empty (h_ctype r) then Some (Some V1) else option_map ct_spec ast) as [[t'|]|] eqn:C; try reflexivity.
       pose proof (Hct _ eq_refl) as Q. inversion Q; subst. rewrite A. reflexivity. }
-  rewrite (T6 d t eq_refl eq_refl eq_refl eq_refl A N).
-  simpl. rewrite str_eqb_refl, A, N. simpl. rewrite eq3_refl. unfold store_status. rewrite Z.eqb_refl.
+  rewrite (T6 d t eq_refl eq_refl eq_refl eq_refl A).
+  simpl. rewrite str_eqb_refl, A. unfold store_written. simpl. rewrite eq3_refl. unfold store_status. rewrite Z.eqb_refl.
   destruct (if is_empty (h_ctype r) then Some (Some V1) else option_map ct_spec ast) as [[t'|]|] eqn:C; try reflexivity.
   - pose proof (Hct _ eq_refl) as Q. inversion Q; subst. rewrite mtype_eqb_refl. reflexivity.
   - pose proof (Hct _ eq_refl) as Q. discriminate Q.
@@ -1264,26 +1263,26 @@ Hypothesis roundtrip : forall x, decode (encode x) = Some x.
 Lemma handler_passes_decompressed_payload_lemma accepted sb ctype cenc payload t :
   is_empty cenc || str_eqb cenc snappy_name = true ->
   parse_proto_msg (if is_empty ctype then app_proto else ctype) = Some t ->
-  existsb (mtype_eqb t) accepted = true -> sb_nil sb = false ->
+  existsb (mtype_eqb t) accepted = true ->
   serve decode accepted sb (mkHReq post ctype cenc (encode payload)) =
-  HOut (store_status sb) (Some (sb_samples sb, sb_hist sb, sb_exem sb)) (Some (t, payload)).
+  HOut (store_status sb) (Some (store_written sb)) (Some (t, payload)).
 Proof.
-  intros E P A N.
+  intros E P A.
   destruct (handler_decision_table_lemma decode accepted sb (mkHReq post ctype cenc (encode payload))) as (_ & _ & _ & _ & _ & T6).
   apply T6; auto. simpl. apply roundtrip.
 Qed.
 End Decompress.
 
-(* DEFECT (exp/api/remote/remote_api.go:547-550): a store that returns (nil, err) makes the handler dereference a nil
-   *WriteResponse instead of answering 500 *)
-Lemma handler_nil_store_response_refuted :
-  exists decode accepted sb r,
-    sb_nil sb = true /\ sb_err sb = true /\
-    (exists call, serve decode accepted sb r = HPanic call) /\
-    handler_spec_ok decode accepted sb r None (serve decode accepted sb r) = false.
+(* a store that returns (nil, err) is answered 500 with zero statistics headers (fixed defect: the handler used to
+   dereference the nil *WriteResponse) *)
+Lemma handler_nil_store_response_lemma decode accepted r d t err :
+  enc_ok r = true -> decode (h_body r) = Some d -> str_eqb (h_method r) post = true ->
+  parse_proto_msg (eff_ctype r) = Some t -> existsb (mtype_eqb t) accepted = true ->
+  serve decode accepted (mkSB true 0 0 0 0 err) r = HOut (if err then 500 else 204) (Some (0, 0, 0)) (Some (t, d)).
 Proof.
-  exists (fun b => Some b), [V1], (mkSB true 0 0 0 0 true), (mkHReq post [] snappy_name [1; 2; 3]).
-  repeat split; try reflexivity. eexists. vm_compute. reflexivity.
+  intros E D M P A.
+  destruct (handler_decision_table_lemma decode accepted (mkSB true 0 0 0 0 err) r) as (_ & _ & _ & _ & _ & T6).
+  rewrite (T6 d t E D M P A). destruct err; reflexivity.
 Qed.
 
 (* observation: an empty parameter (allowed by RFC 9110's grammar "*( OWS ";" OWS [ parameter ] )") is rejected *)
